@@ -23,6 +23,15 @@ use crate::verif_models::FoldMap as ModelMap;
 struct Key(u8);
 #[allow(non_camel_case_types)]
 type String = Key;
+// `&str` views of an id are views of the same opaque key (so that a refactoring of the
+// fold that borrows ids with `as_str()` still compiles against the mirrors).
+#[allow(non_camel_case_types)]
+type str = Key;
+impl Key {
+  fn as_str(&self) -> &str {
+    self
+  }
+}
 
 #[derive(Clone, Debug)]
 struct Document {
